@@ -8,6 +8,7 @@ import (
 	"io"
 	"math"
 	"os"
+	"path/filepath"
 	"regexp"
 	"runtime"
 	"sort"
@@ -20,8 +21,11 @@ import (
 	"github.com/siglens/siglens/pkg/config"
 	eswriter "github.com/siglens/siglens/pkg/es/writer"
 	sighooks "github.com/siglens/siglens/pkg/hooks"
+	"github.com/siglens/siglens/pkg/querytracker"
 	"github.com/siglens/siglens/pkg/segment/memory/limit"
+	"github.com/siglens/siglens/pkg/segment/pqmr"
 	"github.com/siglens/siglens/pkg/segment/query"
+	pqsmeta "github.com/siglens/siglens/pkg/segment/query/pqs/meta"
 	sutils "github.com/siglens/siglens/pkg/segment/utils"
 	"github.com/siglens/siglens/pkg/segment/writer"
 	serverutils "github.com/siglens/siglens/pkg/server/utils"
@@ -43,6 +47,9 @@ type LayoutCfg struct {
 	Procs      int    `json:"procs"`       // GOMAXPROCS (0 = default)
 	Perm       []int  `json:"perm"`        // ingest order (indices into the event list)
 	Trace      bool   `json:"trace"`       // read from the server's log how each query was served (raw search / pqs)
+	Restarted  bool   `json:"restarted"`   // the node's segmeta file exists before the writer starts (not the first boot): the PQS listener runs
+	SettleMs   int    `json:"settle_ms"`   // wait after the last rotation (the listener writes the empty-PQS lists every 10 s)
+	DrainPqs   bool   `json:"drain_pqs"`   // after the last rotation run the listener's tick once, directly (hook)
 	DumpRanges string `json:"dump_ranges"` // after ingest: the range micro index of this column in every block of the open segment
 	Windows    bool   `json:"windows"`     // record, after every written record, what getLastRecord() returns per column
 }
@@ -98,7 +105,54 @@ type WinObs struct {
 
 var idRe = regexp.MustCompile(`"id":(\d+)`)
 
+// bookkeeping of one persistent query after the last rotation: per rotated segment whether its pqmr file exists
+// and whether the segment is on the query's empty-results list
+type PqsSeg struct {
+	Seg        string `json:"seg"`
+	HasPqmr    bool   `json:"has_pqmr"`
+	Empty      bool   `json:"empty"`
+	Blocks     int    `json:"blocks"`
+	Recs       int    `json:"recs"`
+	EarliestMs uint64 `json:"earliest_ms"`
+}
+type PqsState struct {
+	Query string   `json:"query"`
+	Pqid  string   `json:"pqid"`
+	Segs  []PqsSeg `json:"segs"`
+}
+
+func pqsState(idx string, queries []string) []PqsState {
+	var out []PqsState
+	metas := writer.ReadLocalSegmeta(false)
+	for _, q := range queries {
+		node, aggs, _, err := pipesearch.ParseQuery(q, 1, "Splunk QL")
+		if err != nil || node == nil {
+			continue
+		}
+		_ = aggs
+		sn := query.ConvertASTNodeToSearchNode(node, 1)
+		if sn == nil {
+			continue
+		}
+		pqid := querytracker.GetHashForQuery(sn)
+		empty, _ := pqsmeta.GetAllEmptySegmentsForPqid(pqid)
+		st := PqsState{Query: q, Pqid: pqid}
+		for _, m := range metas {
+			if m.VirtualTableName != idx {
+				continue
+			}
+			_, ferr := os.Stat(pqmr.GetPQMRFileNameFromSegKey(m.SegmentKey, pqid))
+			st.Segs = append(st.Segs, PqsSeg{Seg: filepath.Base(m.SegmentKey), HasPqmr: ferr == nil, Empty: empty[m.SegmentKey], Blocks: int(m.NumBlocks), Recs: m.RecordCount, EarliestMs: m.EarliestEpochMS})
+		}
+		sort.Slice(st.Segs, func(i, j int) bool { return st.Segs[i].EarliestMs < st.Segs[j].EarliestMs })
+		out = append(out, st)
+	}
+	return out
+}
+
 type WorkerOut struct {
+	Pqs      []PqsState                  `json:"pqs,omitempty"`
+	Drained  int                         `json:"drained,omitempty"`
 	Ranges   []writer.VerifC03BlockRange `json:"ranges,omitempty"`
 	Windows  []WinObs                    `json:"windows,omitempty"`
 	Obs      []Obs                       `json:"obs"`
@@ -113,6 +167,14 @@ func initNode(dir string, cfg LayoutCfg) error {
 	config.SetPQSEnabled(cfg.PQS)
 	config.SetAggregationsFlag(cfg.Aggs)
 	limit.InitMemoryLimiter()
+	if cfg.Restarted {
+		// a node that has been started before: its segmeta file exists, so initSmr starts the listener
+		sm := writer.GetLocalSegmetaFName()
+		_ = os.MkdirAll(filepath.Dir(sm), 0o755)
+		if _, err := os.Stat(sm); err != nil {
+			_ = os.WriteFile(sm, []byte{}, 0o644)
+		}
+	}
 	writer.InitWriterNode()
 	if err := vtable.InitVTable(serverutils.GetMyIds); err != nil {
 		return err
@@ -346,6 +408,15 @@ func workerMain(dir, scriptPath, outPath string) {
 	if sc.Cfg.Final {
 		writer.ForceRotateSegmentsForTest()
 		out.Rotates++
+	}
+	if sc.Cfg.DrainPqs {
+		out.Drained = writer.VerifC03DrainPqsChan(300)
+	}
+	if sc.Cfg.SettleMs > 0 {
+		time.Sleep(time.Duration(sc.Cfg.SettleMs) * time.Millisecond)
+	}
+	if sc.Cfg.PQS && (sc.Cfg.DrainPqs || sc.Cfg.SettleMs > 0) {
+		out.Pqs = pqsState(sc.Idx, sc.Queries)
 	}
 	if sc.Cfg.DumpRanges != "" {
 		out.Ranges = writer.VerifC03UnrotatedRanges(sc.Cfg.DumpRanges)
